@@ -29,7 +29,8 @@ RULE = ("sequences of 120-300 datagrams through 2 associations x 2 sessions x up
         "pre-session traffic, UDP-banned names, duplicate UseCircuitCode, circuit close and re-open. quick 8 x 10 sequences, "
         "thorough 16 x 600. distinct_nontrivial = distinct (direction, message name, region slot, preceded-by-garbage) "
         "deliveries checked"
-        ". Round-5 additions: 12% of the valid traffic are the messages whose content the proxy reads on the way through (owner-say chat with RLV-looking and near-RLV text incl. bare '@', leading whitespace, missing NUL, invalid UTF-8; region handshakes; agent data updates; chat commands); a template-conformant datagram (independent encoder) that the library's decoder refuses is a violation, not a harness failure")
+        ". Round-5 additions: 12% of the valid traffic are the messages whose content the proxy reads on the way through (owner-say chat with RLV-looking and near-RLV text incl. bare '@', leading whitespace, missing NUL, invalid UTF-8; region handshakes; agent data updates; chat commands); a template-conformant datagram (independent encoder) that the library's decoder refuses is a violation, not a harness failure"
+        ". Round 7: one association sends to 1400 (thorough 5000) distinct unrelated addresses; every 64 the open circuit's traffic must still be delivered once in both directions; extras with isolated zeros")
 ASSUMPTIONS = [
     "an open circuit = UseCircuitCode seen from the viewer for a region the session knows, not (yet) closed by "
     "CloseCircuit/DisableSimulator; nothing is demanded for closed circuits until a new UseCircuitCode",
